@@ -306,6 +306,8 @@ impl<'a> Searcher<'a> {
                                 }
                                 Err(e) => {
                                     self.error_count += 1;
+                                    #[cfg(feature = "verif")]
+                                    crate::verif::emit("err", &[("site", "rx_root_read_dir".to_string())]);
                                     path_error_message(path, e)
                                 }
                             }
@@ -586,6 +588,8 @@ impl<'a> Searcher<'a> {
         let canonical_path = crate::util::canonical_path(&dir.to_path_buf());
         if canonical_path.is_err() {
             self.error_count += 1;
+            #[cfg(feature = "verif")]
+            crate::verif::emit("err", &[("site", "canonicalize".to_string())]);
             error_message(
                 &dir.to_string_lossy(),
                 String::from("could not canonicalize path: ")
@@ -604,6 +608,15 @@ impl<'a> Searcher<'a> {
         };
 
         let depth = canonical_depth - base_depth + 1;
+
+        #[cfg(feature = "verif")]
+        crate::verif::emit("dir", &[
+            ("path", dir.to_string_lossy().to_string()),
+            ("canon", canonical_path.clone()),
+            ("depth", depth.to_string()),
+            ("base", base_depth.to_string()),
+            ("follow", self.current_follow_symlinks.to_string()),
+        ]);
 
         // Read the directory and process each entry
         match fs::read_dir(dir) {
@@ -730,6 +743,8 @@ impl<'a> Searcher<'a> {
 
                                                 if result.is_err() {
                                                     self.error_count += 1;
+                                                    #[cfg(feature = "verif")]
+                                                    crate::verif::emit("err", &[("site", "dfs_visit_result".to_string())]);
                                                     path_error_message(
                                                         &path,
                                                         result.err().unwrap(),
@@ -741,6 +756,8 @@ impl<'a> Searcher<'a> {
                                         }
                                     } else {
                                         self.error_count += 1;
+                                        #[cfg(feature = "verif")]
+                                        crate::verif::emit("err", &[("site", "file_type".to_string())]);
                                         path_error_message(&path, result.err().unwrap());
                                     }
                                 }
@@ -748,6 +765,8 @@ impl<'a> Searcher<'a> {
                         }
                         Err(err) => {
                             self.error_count += 1;
+                            #[cfg(feature = "verif")]
+                            crate::verif::emit("err", &[("site", "dir_entry".to_string())]);
                             path_error_message(dir, err);
                         }
                     }
@@ -755,6 +774,8 @@ impl<'a> Searcher<'a> {
             }
             Err(err) => {
                 self.error_count += 1;
+                #[cfg(feature = "verif")]
+                crate::verif::emit("err", &[("site", "read_dir".to_string())]);
                 path_error_message(dir, err);
             }
         }
@@ -790,6 +811,8 @@ impl<'a> Searcher<'a> {
 
                 if result.is_err() {
                     self.error_count += 1;
+                    #[cfg(feature = "verif")]
+                    crate::verif::emit("err", &[("site", "bfs_visit_result".to_string())]);
                     path_error_message(&path, result.err().unwrap());
                 }
             }
@@ -830,6 +853,16 @@ impl<'a> Searcher<'a> {
         column_expr: &Expr,
     ) -> Variant {
         let column_expr_str = column_expr.to_string();
+
+        #[cfg(feature = "verif")]
+        if crate::verif::enabled() {
+            crate::verif::emit("memo", &[
+                ("key", column_expr_str.clone()),
+                ("expr", format!("{:?}", column_expr)),
+                ("hit", file_map.contains_key(&column_expr_str).to_string()),
+                ("map", format!("{:p}", file_map as *const HashMap<String, String>)),
+            ]);
+        }
 
         if file_map.contains_key(&column_expr_str) {
             return Variant::from_string(&file_map[&column_expr_str]);
@@ -1781,6 +1814,13 @@ impl<'a> Searcher<'a> {
     fn check_file(&mut self, entry: &DirEntry, file_info: &Option<FileInfo>) -> io::Result<bool> {
         self.fms.clear();
 
+        #[cfg(feature = "verif")]
+        crate::verif::emit("chk", &[
+            ("path", entry.path().to_string_lossy().to_string()),
+            ("member", file_info.as_ref().map(|f| f.name.clone()).unwrap_or_default()),
+            ("is_member", file_info.is_some().to_string()),
+        ]);
+
         if let Some(ref expr) = self.query.expr {
             let result = self.conforms(entry, file_info, expr);
             if !result {
@@ -1789,6 +1829,15 @@ impl<'a> Searcher<'a> {
         }
 
         self.found += 1;
+
+        #[cfg(feature = "verif")]
+        crate::verif::emit("row", &[
+            ("path", entry.path().to_string_lossy().to_string()),
+            ("is_member", file_info.is_some().to_string()),
+            ("found", self.found.to_string()),
+            ("limit", self.query.limit.to_string()),
+            ("buffered", self.is_buffered().to_string()),
+        ]);
 
         let mut file_map = HashMap::new();
 
